@@ -79,9 +79,9 @@ def run(prop, tier, replay=None):
         scenarios += fe.tlc_scenarios(work, ntlc, depth, seed)
         scenarios += fe.gen_scenarios(seed, ngen)
 
-    lines, wall, bwall = fe.replay(work, scenarios, shards)
+    lines, wall, bwall, crashes = fe.replay(work, scenarios, shards)
     planned = len(scenarios)
-    stalled = {ln["t"] for ln in lines if ln["ev"] == "Stall"}
+    stalled = {ln["t"] for ln in lines if ln["ev"] in ("Stall", "RunExit", "Crash")}
     # discarded = histories that COMPLETED but contained a wait long enough to come near the code's own timeouts;
     # a history in which the watcher stalled is never discarded: the stall is the observation
     bad = {ln["t"] for ln in lines if ln["ev"] == "Slow"} - stalled
@@ -90,7 +90,7 @@ def run(prop, tier, replay=None):
     ran = len(executed)
     print("ran %d of %d chain histories (%d recorded lines) on the real Watcher.Run in %.1fs (build %.1fs); %d discarded as slow; %d with a stall"
           % (ran, planned, len(lines), wall, bwall, len(bad), len(stalled)))
-    if not lines:
+    if not lines and not crashes:
         raise vlib.Broken("no line was recorded from the real Watcher.Run (%d histories planned, %d discarded as slow)" % (planned, len(bad)))
     rejs, r = fe.validate(work, lines, parallel=shards)
     print("trace validation: %d states, %.1fs, %d rejected line(s)" % (r["distinct"], r["wall_s"], len(rejs)))
@@ -100,6 +100,11 @@ def run(prop, tier, replay=None):
     for i, ln in enumerate(lines):
         first.setdefault(ln["t"], i)
     verdict = vlib.Verdict(prop)
+    for c in crashes:
+        # an unrecovered panic in a goroutine of the code under test killed the test process
+        verdict.add(fe.crash_signature(c), {"panic": c["panic"], "function": c["func"], "file": c["file"], "frames": c["frames"],
+                                            "trace": c.get("last_lines"),
+                                            "scenario": scenarios[c["t"] - 1] if c.get("t") and 0 < c["t"] <= len(scenarios) else None})
     timeouts = []
     for rj in rejs:
         if rj.get("ev") == "Timeout":
@@ -197,7 +202,7 @@ def run(prop, tier, replay=None):
         "mc_configs": mcs, "trace_spec_states": r["distinct"], "line_kinds": dict(acts), "effects_observed": dict(eff),
         "scenario_sources": dict(Counter(sc.get("src") for sc in scenarios)),
         "modes": dict(Counter("finalized" if sc["cfg"]["fin"] else "latest" for sc in scenarios)),
-        "planned": planned, "executed": ran, "stalled": len(stalled), "discarded_slow": len(bad), "harness_timeouts": len(timeouts), "rejected_lines": len(verdict.items), "known_findings_matched": getattr(verdict, "n_known", 0),
+        "crashes": len(crashes), "planned": planned, "executed": ran, "stalled": len(stalled), "discarded_slow": len(bad), "harness_timeouts": len(timeouts), "rejected_lines": len(verdict.items), "known_findings_matched": getattr(verdict, "n_known", 0),
         "signatures": dict(Counter(s for s, _ in verdict.items)),
         "exhaustive": False,
     }
